@@ -36,8 +36,12 @@ JMuts == {"drop", "null", "int", "negative", "huge", "string", "empty-string", "
 
 VARIABLES mode, stage, toks
 v4 == <<mode, stage, toks, fam, c>>
-EditPool == IF EditTrees = "all" THEN OpTrees \cup LogicTrees \cup CtorTrees
-            ELSE IF EditTrees = "ctor" THEN CtorTrees \cup {Bin(o, X(1), X(2)) : o \in BinOps} \cup LMix ELSE {}
+\* calls whose argument is a property (a power set): the value audit then looks into the callee's stored definition
+\* (F3 := [a in BBB(X1)] card(a) in the harness's context) - whatever it reports must be positioned in the caller's text
+PropCalls == {Call("F3", <<Node("BOOLEAN", <<X(1)>>)>>), Call("F3", <<Node("BOOLEAN", <<Node("BOOLEAN", <<X(1)>>)>>)>>),
+              Node("EQUAL", <<Call("F3", <<Node("BOOLEAN", <<X(1)>>)>>), IntLit(1)>>)}
+EditPool == IF EditTrees = "all" THEN OpTrees \cup LogicTrees \cup CtorTrees \cup PropCalls
+            ELSE IF EditTrees = "ctor" THEN CtorTrees \cup {Bin(o, X(1), X(2)) : o \in BinOps} \cup LMix \cup PropCalls ELSE {}
 
 Init4 == \/ mode = "seq" /\ stage = 0 /\ toks = <<>> /\ fam = "none" /\ c = X(1)
          \/ /\ mode = "json" /\ stage = 0 /\ fam = "none" /\ c = X(1)
